@@ -222,8 +222,9 @@ pub fn gen_c08(rng: &mut Rng, thorough: bool) -> Vec<Tagged> {
         let c = rng.range(1, 2);
         let input = Sh::Sp(c, h, w);
         let layers = [
-            Simple::Conv { filters: rng.range(1, 2), kernel: (k, k2), stride: (s, s2), padding: (p, p2), dilation: (d, d2), act: Act::Linear, dropout: None },
-            Simple::Deconv { filters: rng.range(1, 2), kernel: (k, k2), stride: (s, s2), padding: (p.min(1), p2.min(1)), act: Act::Linear, dropout: None },
+            // the activation cycles through all six (soft-max included): the produced shape must not depend on it
+            Simple::Conv { filters: rng.range(1, 2), kernel: (k, k2), stride: (s, s2), padding: (p, p2), dilation: (d, d2), act: ALL_ACTS[(i / 3) % 6], dropout: None },
+            Simple::Deconv { filters: rng.range(1, 2), kernel: (k, k2), stride: (s, s2), padding: (p.min(1), p2.min(1)), act: ALL_ACTS[(i / 3) % 6], dropout: None },
             Simple::Maxpool { kernel: (k, k2), stride: (s, s2) },
         ];
         let l = &layers[i % 3];
@@ -239,6 +240,38 @@ pub fn gen_c08(rng: &mut Rng, thorough: bool) -> Vec<Tagged> {
             // gradient shapes equal parameter shapes
             let g = rand_input(rng, valid.unwrap(), 1);
             out.push((format!("{}-gradshape", tag), Case::Net(spec, NetCmd::LayerBackward(0, x, g))));
+        }
+    }
+    // (a2) every activation on a convolution / deconvolution: alone, followed by a spatial layer, followed
+    //      by a dense layer (flatten boundary): announced = produced for each
+    for a in ALL_ACTS {
+        for variant in 0..6 {
+            let input = Sh::Sp(1 + variant % 2, 3, 2 + variant % 3);
+            let first = if variant % 2 == 0 {
+                Simple::Conv { filters: 2, kernel: (2, 1), stride: (1, 1), padding: (0, 0), dilation: (1, 1), act: a, dropout: None }
+            } else {
+                Simple::Deconv { filters: 2, kernel: (1, 2), stride: (1, 1), padding: (0, 0), act: a, dropout: None }
+            };
+            let mid = match out_shape(&first, input) { Some(m) => m, None => continue };
+            let mut spec = NetSpec::new(input.to_shape());
+            let mut ws = vec![LW::One(rand_w(rng, &first, input, 1))];
+            spec.layers.push(LayerSpec::One(first));
+            match variant / 2 {
+                0 => {}
+                1 => {
+                    let nxt = Simple::Conv { filters: 1, kernel: (1, 1), stride: (1, 1), padding: (0, 0), dilation: (1, 1), act: Act::Linear, dropout: None };
+                    ws.push(LW::One(rand_w(rng, &nxt, mid, 1)));
+                    spec.layers.push(LayerSpec::One(nxt));
+                }
+                _ => {
+                    let nxt = Simple::Dense { out: 2, act: Act::Linear, bias: true, dropout: None };
+                    ws.push(LW::One(rand_w(rng, &nxt, Sh::Flat(mid.numel()), 1)));
+                    spec.layers.push(LayerSpec::One(nxt));
+                }
+            }
+            spec.weights = Some(ws);
+            out.push((format!("act-{:?}-on-spatial-shapes", a), Case::Net(spec.clone(), NetCmd::Shapes)));
+            out.push((format!("act-{:?}-on-spatial-produced", a), Case::Net(spec, NetCmd::Forward(rand_input(rng, input, 0)))));
         }
     }
     // (b) flat -> spatial transitions for every flat size (perfect squares and not)
